@@ -527,6 +527,33 @@ theorem modes_agree_aux (w : World) (cfg : Cfg) :
         | none => simp [Res.toOption]
         | refuseCreate => simp [Res.toOption]
         | refuseResolve => simp [Res.toOption]
+      | nt c =>
+        cases hit : iterItems o with
+        | none => rw [stD_nt_none w cfg hit, stF_nt_none w cfg hit]; rfl
+        | some xs =>
+          rw [stD_nt_some w cfg hit, stF_nt_some w cfg hit]
+          by_cases hnt : w.isNT c = true
+          · simp only [hnt, if_true]
+            have hlt := iterItems_lt hit
+            have hT := stDT_agree w cfg (w.ntTys c) xs
+              (fun t' _ x hx => IHo t' x (by have := List.sizeOf_lt_of_mem hx; omega)) 0
+            cases hf : stFT w cfg (w.ntTys c) xs with
+            | none =>
+              simp only [hf] at hT
+              simp only [Option.map_none]
+              by_cases hlen : xs.length = (w.ntTys c).length
+              · have h2 : (stDT w cfg 0 (w.ntTys c) xs).2 ≠ [] := by
+                  rcases hT with h | h
+                  · exact h
+                  · exact absurd hlen h
+                have : (stDT w cfg 0 (w.ntTys c) xs).2.isEmpty = false := by
+                  cases h : (stDT w cfg 0 (w.ntTys c) xs).2 <;> simp_all
+                simp [hlen, this, Res.toOption]
+              · simp [hlen, Res.toOption]
+            | some zs =>
+              simp only [hf] at hT
+              simp [hT.1, hT.2, Res.toOption]
+          · simp [hnt, Res.toOption]
 
 theorem modes_agree (w : World) (cfg : Cfg) (t : Ty) (o : Obj) :
     Res.toOption (stD w cfg t o) = stF w cfg t o :=
